@@ -143,7 +143,7 @@ Print Assumptions C05_ignore_options_exact.
 Theorem C05_axis_map_sound :
   forall o x y, constructs_eq New o x y = Ok true ->
   exists aps ps m01 m10,
-    match_groups New o (f_cons y) (groups (f_cons x)) (groups (f_cons y)) = Ok (Some (aps, ps)) /\
+    match_groups New (nested o) (f_cons y) (groups (f_cons x)) (groups (f_cons y)) = Ok (Some (aps, ps)) /\
     (forall ax0 ax1 a b,
        (In (ax0, ax1) aps \/ (f_daxes x = Some ax0 /\ f_daxes y = Some ax1)) ->
        In (a, b) (zip ax0 ax1) -> assoc a m01 = Some b /\ assoc b m10 = Some a).
